@@ -111,7 +111,7 @@ theorem rt : ∀ (s : Shape) (d : D), wf s d = true → de s (ser s d) = .ok d
     rename_i ds
     have := rtFields ss names ds [] h.1.1 h.1.2 h.2 (by simp [lookupStr])
     simp only [List.nil_append] at this
-    simp [ser, de, allStrKeys_zipKeys, this]
+    simp [ser, de, allStrKeys_zipKeys, this, ignoredOK_zipKeys names names _ (fun n hn => hn)]
   | .enum names vs, d, h => by
     cases d <;> simp [wf] at h
     rename_i i p
@@ -198,7 +198,7 @@ theorem rtV : ∀ (v : VShape) (n : Str) (p : D), wfV v p = true → VariantRT n
     rename_i ds
     have := rtFields ss names ds [] h.1.1 h.1.2 h.2 (by simp [lookupStr])
     simp only [List.nil_append] at this
-    exact Or.inr ⟨.map (zipKeys names (serList ss ds)), by simp [serV], by simp [deV, allStrKeys_zipKeys, this]⟩
+    exact Or.inr ⟨.map (zipKeys names (serList ss ds)), by simp [serV], by simp [deV, allStrKeys_zipKeys, this, ignoredOK_zipKeys names names _ (fun n hn => hn)]⟩
 end
 
 end MJ.Serde
